@@ -50,6 +50,18 @@ Theorem C18_windows_relative_uri_valid : forall f, Forall (fun c => 1 <= c <= 25
 Proof. exact win_relative_uri_valid. Qed.
 Print Assumptions C18_windows_relative_uri_valid.
 
+(* ---- and has the documented form: file:///x, file:///C:/x, file://server/share, no "file:" -- *)
+Theorem C18_unix_form : forall f, Forall (fun c => 1 <= c <= 255) f ->
+  uri_form true f (filename_to_uri_string true f) = true.
+Proof. exact unix_form. Qed.
+Print Assumptions C18_unix_form.
+
+Theorem C18_windows_form : forall f, Forall (fun c => 1 <= c <= 255) f ->
+  win_absolute f = true \/ win_relative f = true ->
+  uri_form false f (filename_to_uri_string false f) = true.
+Proof. exact windows_form. Qed.
+Print Assumptions C18_windows_form.
+
 (* ---- documented sizes: 7 + 3n + 1 / 3n + 1 (Unix), 8 + 3n + 1 / 3n + 1 (Windows) ---- *)
 Theorem C18_unix_uri_fits : forall f, (f2u_extent true f <= unix_uri_size f)%nat.
 Proof. exact unix_uri_fits. Qed.
